@@ -122,7 +122,7 @@ def _colour_index(rgba, lut):
     return 999
 
 
-def read_axes(ax, num_jobs, cmap_name, label_prefix, machine_labels):
+def read_axes(ax, num_jobs, cmap_name, label_prefix, machine_labels, job_labels=None):
     """The artists of a Gantt chart Axes as nested ints:
     [bars, legend, [ylo, yhi], yticks, xlim, xticks] + flags."""
     import matplotlib.pyplot as plt
@@ -157,12 +157,23 @@ def read_axes(ax, num_jobs, cmap_name, label_prefix, machine_labels):
         texts = [t.get_text() for t in leg.get_texts()]
         labels = [h.get_label() for h in handles]
         texts_ok = int(texts == labels)
+        used = set()
         for h in handles:
             lab = h.get_label()
+            ci = _colour_index(h.get_facecolor(), lut)
             j = 999
-            if lab.startswith(label_prefix) and lab[len(label_prefix):].isdigit():
+            if job_labels is not None:
+                # labels given by the caller need not be unique (two jobs making the same part): the entry stands
+                # for a job that carries this label - the one drawn in this colour if there is one
+                cands = [jj for jj, text in enumerate(job_labels) if text == lab and jj not in used]
+                exact = [jj for jj in cands
+                         if ci == (0 if num_jobs <= 1 else max(0, min(num_jobs - 1, (jj * num_jobs) // (num_jobs - 1))))]
+                if exact or cands:
+                    j = (exact or cands)[0]
+                    used.add(j)
+            elif lab.startswith(label_prefix) and lab[len(label_prefix):].isdigit():
                 j = int(lab[len(label_prefix):])
-            legend.append([j, _colour_index(h.get_facecolor(), lut)])
+            legend.append([j, ci])
     ylo, yhi = ax.get_ylim()
     yticks = [_integral(t) for t in ax.get_yticks()]
     ylabels = [t.get_text() for t in ax.get_yticklabels()]
@@ -296,12 +307,15 @@ def run_anim(case):
             d = Dispatcher(inst, ready_operations_filter=solver.ready_operations_filter)
         else:
             d = Dispatcher(inst)
+        # keep = 1: remove_frames=False - the frame files of earlier (not longer) episodes are still in the
+        # directory when the frames of this history are written; every frame is written again all the same
+        keep = {"remove_frames": False} if case.get("keep") else {}
         if mode in (1, 2):
             creator = GanttChartCreator(
                 d, gif_config={"gif_path": os.path.join(tmp, "a.gif"), "frames_dir": frames_dir,
-                               "plot_current_time": bool(case["pct"])},
+                               "plot_current_time": bool(case["pct"]), **keep},
                 video_config={"video_path": os.path.join(tmp, "a.mp4"), "frames_dir": frames_dir,
-                              "plot_current_time": bool(case["pct"])})
+                              "plot_current_time": bool(case["pct"]), **keep})
             creator.partial_gantt_chart_plotter = stub_plot
             ho = creator.history_observer
             # earlier episodes on the same dispatcher / creator (the life cycle of the RL environments:
@@ -406,14 +420,95 @@ def run_gif(case):
             im = np.asarray(im)[..., :3].astype(np.int64)[::step, ::step]
             scores = []
             for r in refs:
-                hh, ww = min(im.shape[0], r.shape[0]), min(im.shape[1], r.shape[1])
-                scores.append(float(np.abs(im[:hh, :ww] - r[:hh, :ww]).mean())
-                              + abs(im.shape[0] - r.shape[0]) + abs(im.shape[1] - r.shape[1]))
+                # both on a white canvas that holds either (the library pads smaller frames in white; the
+                # reference pictures keep their natural size): what one shows and the other does not counts
+                hh, ww = max(im.shape[0], r.shape[0]), max(im.shape[1], r.shape[1])
+                a = np.full((hh, ww, 3), 255, dtype=np.int64)
+                b = np.full((hh, ww, 3), 255, dtype=np.int64)
+                a[:im.shape[0], :im.shape[1]] = im
+                b[:r.shape[0], :r.shape[1]] = r
+                scores.append(float(np.abs(a - b).mean()))
             best.append(1 + int(np.argmin(scores)))
         return {"n": n, "decoded": len(decoded), "best": best}
     finally:
         plt.close("all")
         shutil.rmtree(tmp, ignore_errors=True)
+
+
+def pad_images(case):
+    """The images of a ``pad`` case: deterministic pixel values below 250, shape [h, w] (+ channels)."""
+    import numpy as np
+
+    rng = random.Random(case["seed"])
+    out = []
+    for h, w in case["shapes"]:
+        shape = (h, w) if not case["chan"] else (h, w, case["chan"])
+        n = 1
+        for x in shape:
+            n *= x
+        out.append(np.array([rng.randrange(250) for _ in range(n)], dtype=np.uint8).reshape(shape))
+    return out
+
+
+def run_pad(case):
+    """What create_gif_from_frames / create_video_from_frames hand to imageio.mimsave when the frame files hold
+    images of the given shapes (imageio.imread / mimsave stubbed, real directory with one file per frame)."""
+    import importlib
+    import numpy as np
+
+    from job_shop_lib.visualization import create_gif_from_frames, create_video_from_frames
+
+    viz = importlib.import_module(VIZ)
+    imgs = pad_images(case)
+    tmp = tempfile.mkdtemp(prefix="c20-", dir=os.path.join(common.VERIF, ".scratch"))
+    captured = []
+    old_io = viz.imageio
+    err = 0
+    try:
+        for k in range(1, len(imgs) + 1):
+            open(os.path.join(tmp, f"frame_{k:02d}.png"), "wb").close()
+
+        def imread(path):
+            name = os.path.basename(str(path))
+            return imgs[int(name[len("frame_"):-len(".png")]) - 1].copy()
+
+        viz.imageio = types.SimpleNamespace(
+            imread=imread, mimsave=lambda path, images, **kw: captured.append([np.array(im) for im in images]))
+        try:
+            if case["via"] == "gif":
+                create_gif_from_frames(tmp, os.path.join(tmp, "a.gif"), 1)
+            else:
+                create_video_from_frames(tmp, os.path.join(tmp, "a.mp4"), 1, macro_block_size=case["mb"])
+        except Exception as e:  # pylint: disable=broad-except
+            err = common.exn_code(e)
+    finally:
+        viz.imageio = old_io
+        shutil.rmtree(tmp, ignore_errors=True)
+    out = captured[0] if captured else []
+    return {"err": err, "calls": len(captured),
+            "in": [[list(im.shape), im.astype(int).tolist()] for im in imgs],
+            "out": [[list(im.shape), np.asarray(im).astype(int).tolist()] for im in out]}
+
+
+def _channel(img, c):
+    """[h, w, rows] of channel c (c = None: the image is two-dimensional)."""
+    (shape, px) = img
+    h, w = shape[0], shape[1]
+    if c is None:
+        return [h, w, px]
+    return [h, w, [[v[c] for v in row] for row in px]]
+
+
+def _contains(big, small):
+    """Is the array `small` a contiguous block of `big` (nested lists, first two axes)?"""
+    (bs, bp), (ss, sp) = big, small
+    if ss[0] == 0 or ss[1] == 0:
+        return ss[0] <= bs[0] and ss[1] <= bs[1]
+    for r0 in range(bs[0] - ss[0] + 1):
+        for c0 in range(bs[1] - ss[1] + 1):
+            if all(bp[r0 + r][c0:c0 + ss[1]] == sp[r] for r in range(ss[0])):
+                return True
+    return False
 
 
 def run_chart(case):
@@ -427,6 +522,8 @@ def run_chart(case):
     nm = len(sched.schedule)
     prefix = "Job " if not case["labels"] else "J#"
     job_labels = None if not case["labels"] else [f"J#{j}" for j in range(inst.num_jobs)]
+    if case["labels"] == 2:
+        job_labels = [f"part {j % 2}" for j in range(inst.num_jobs)]      # labels shared by several jobs
     machine_labels = None if not case["labels"] else [f"M{m}" for m in range(nm)]
     kw = {}
     if case["nt"] is not None:
@@ -455,7 +552,8 @@ def run_chart(case):
     try:
         same_axes = int(fig.axes and fig.axes[0] is ax)
         obs = read_axes(ax, inst.num_jobs, CMAPS[case["cmap"]], prefix,
-                        machine_labels or [str(i) for i in range(nm)])
+                        machine_labels or [str(i) for i in range(nm)],
+                        job_labels if case["labels"] == 2 else None)
     finally:
         plt.close("all")
     obs["rows"] = _rows_of(sched)
@@ -528,7 +626,9 @@ class C20(Check):
         r = rng.random()
         case["nt"] = None if r < 0.3 else rng.choice([1, 2, 3, 4, 7, 15, 16, 40, rng.randint(1, 200)])
         case["cmap"] = 1 if rng.random() < 0.2 else 0
-        case["labels"] = 1 if rng.random() < 0.2 else 0
+        case["labels"] = rng.choice([1, 1, 2]) if rng.random() < 0.3 else 0
+        if case["labels"] == 2:
+            self.note("chart_job_labels_shared_by_several_jobs")
         r_open = rng.random()
         if r_open < 0.2:
             case["open_before"] = random_history(rng, spec, rng.randint(1, total))
@@ -575,6 +675,10 @@ class C20(Check):
             case["warm"] = [[random_history(rng, spec, rng.randint(1, min(total, 12))), rng.randrange(3)]
                             for _ in range(rng.randint(1, 2))]
             self.note("anim_after_earlier_episodes")
+            if rng.random() < 0.5:
+                case["keep"] = 1
+                case["warm"] = [[wh[:n], r] for wh, r in case["warm"]]
+                self.note("anim_frames_of_earlier_episodes_kept_in_the_directory")
             if any(r for _, r in case["warm"]):
                 self.note("anim_after_earlier_rendering")
         return case
@@ -615,11 +719,34 @@ class C20(Check):
             cases.append(self.gen_anim(rng, n=rng.randint(1, 9), real_plot=True))
         for _ in range(6 * scale):
             cases.append(self.gen_solver(rng))
+        # the images handed to the encoder: frames of different pixel sizes (legend growing), none, one, empty ones
+        for i in range(40 * scale):
+            n = rng.choice([0, 1, 2, 3, 3, 4, 5, 6])
+            base = [rng.randint(1, 6), rng.randint(1, 6)]
+            shapes = []
+            for _ in range(n):
+                r = rng.random()
+                if r < 0.45:
+                    shapes.append(list(base))
+                elif r < 0.9:
+                    shapes.append([max(0, base[0] + rng.choice([-1, 0, 0, 1])), max(0, base[1] + rng.choice([0, 1, 2]))])
+                else:
+                    shapes.append([rng.randint(0, 7), rng.randint(0, 7)])
+            via = "gif" if i % 3 else "video"
+            chan = rng.choice([3, 4]) if via == "video" else rng.choice([0, 0, 3, 4])
+            cases.append({"kind": "pad", "shapes": shapes, "seed": rng.randrange(10 ** 6), "chan": chan,
+                          "via": via, "mb": rng.choice([1, 1, 4, 16])})
+            self.note("pad_" + ("one_shape" if len({tuple(x) for x in shapes}) <= 1 else "mixed_shapes"))
         # real GIFs (durations >= 1 so that consecutive frames differ visibly)
         for _ in range(1 if self.tier == "quick" else 3):
             spec = common.gen_instance(rng, max_jobs=3, max_machines=3, max_ops=2, min_jobs=2, zero=False)
             cases.append({"kind": "gif", "spec": spec, "history": random_history(rng, spec)})
             self.note("real_gif")
+        # eleven or more jobs: the legend gets wider when "Job 10" appears, the frames differ in pixel size
+        nj = rng.randint(11, 13)
+        spec = [[[[rng.randrange(3)], rng.randint(1, 4)]] for _ in range(nj)]
+        cases.append({"kind": "gif", "spec": spec, "history": random_history(rng, spec)})
+        self.note("real_gif_two_digit_job_ids")
         if self.tier == "thorough":
             spec = [[[[rng.randrange(4)], rng.randint(1, 3)] for _ in range(26)] for _ in range(4)]
             cases.insert(0, {"kind": "gif", "spec": spec, "history": random_history(rng, spec, 102)})
@@ -634,10 +761,15 @@ class C20(Check):
             return run_chart(case)
         if case["kind"] == "anim":
             return run_anim(case)
+        if case["kind"] == "pad":
+            return run_pad(case)
         return run_gif(case)
 
     # ---- model ------------------------------------------------------------
     def model_requests(self, case, obs):
+        if case["kind"] == "pad":
+            chans = [None] if not case["chan"] else list(range(case["chan"]))
+            return [(2008, [_channel(im, c) for im in obs["in"]]) for c in chans]
         spec = case["spec"]
         if case["kind"] == "chart":
             nt = 15 if case["nt"] is None else case["nt"]
@@ -703,6 +835,8 @@ class C20(Check):
                 fails.append(Failure("oracle", "chart:one-bar-per-operation",
                                      "the returned Axes is not the figure's first Axes"))
             return fails
+        if case["kind"] == "pad":
+            return self.judge_pad(case, obs, outs)
         if case["kind"] == "gif":
             if obs.get("error") == "frames-of-different-size":
                 fails.append(Failure("oracle", "gif:frames-of-different-size",
@@ -778,6 +912,40 @@ class C20(Check):
             pos += 2
         return fails
 
+    def judge_pad(self, case, obs, outs):
+        fails = []
+        n = len(obs["in"])
+        if obs["err"] != 0 or obs["calls"] != 1:
+            fails.append(Failure("oracle", "gif:frames-of-different-size",
+                                 f"create_{case['via']}_from_frames raised (code {obs['err']}) / called mimsave "
+                                 f"{obs['calls']} times for frames of shapes {case['shapes']}"))
+            return fails
+        if len(obs["out"]) != n:
+            fails.append(Failure("oracle", "gif:frame-count",
+                                 f"{len(obs['out'])} images handed to the encoder for {n} frame files"))
+            return fails
+        if len({tuple(o[0]) for o in obs["out"]}) > 1:
+            fails.append(Failure("oracle", "gif:frames-of-different-size",
+                                 "the images handed to the encoder differ in shape: imageio refuses them",
+                                 observed=[o[0] for o in obs["out"]]))
+        for k, (i, o) in enumerate(zip(obs["in"], obs["out"]), start=1):
+            if not _contains(o, i):
+                fails.append(Failure("oracle", "gif:frame-order",
+                                     f"image {k} handed to the encoder does not contain the picture read from "
+                                     f"frame file {k} (shape read {i[0]}, handed on {o[0]})"))
+                break
+        # tie: pixel for pixel what the model hands on (macro-block padding of the video route: identity at 1)
+        if case["via"] == "gif" or case["mb"] == 1:
+            chans = [None] if not case["chan"] else list(range(case["chan"]))
+            for c, m in zip(chans, outs):
+                mine = [_channel(o, c) for o in obs["out"]]
+                if mine != m:
+                    fails.append(Failure("tie", "pad-impl-vs-model",
+                                         f"images handed to the encoder differ from the model's (channel {c})",
+                                         expected=self._first_diff(m, mine), observed=self._first_diff(mine, m)))
+                    break
+        return fails
+
     @staticmethod
     def _s(codes):
         return "".join(chr(c) for c in codes)
@@ -808,12 +976,20 @@ class C20(Check):
         return case
 
     def shrink_candidates(self, case):
+        if case["kind"] == "pad":
+            for i in range(len(case["shapes"])):
+                yield dict(case, shapes=case["shapes"][:i] + case["shapes"][i + 1:])
+            if case["chan"]:
+                yield dict(case, chan=0, via="gif")
+            return
         if case.get("open_before") is not None:
             yield {k: v for k, v in case.items() if k != "open_before"}
         if case.get("open_after") is not None:
             yield {k: v for k, v in case.items() if k != "open_after"}
+        if case.get("keep"):
+            yield {k: v for k, v in case.items() if k != "keep"}
         if case.get("warm"):
-            yield {k: v for k, v in case.items() if k != "warm"}
+            yield {k: v for k, v in case.items() if k not in ("warm", "keep")}
             yield dict(case, warm=case["warm"][:-1])
         if case["kind"] == "anim" and case["mode"] != 3:
             h = case["history"]
